@@ -31,6 +31,7 @@ type vpC10Req struct {
 	Proto        string   // "HTTP/1.1" | "HTTP/1.0"
 	ConnLines    []string // values of Connection field lines
 	HandlerClose bool
+	Timeout      bool // the handler answers through ctx.TimeoutError (the server then swaps in a fresh RequestCtx)
 }
 
 type vpC10Cfg struct {
@@ -79,6 +80,9 @@ func vpC10RunServer(cfg vpC10Cfg, reqs []vpC10Req) (steps []vpC10Step, fail stri
 				ctx.SetConnectionClose()
 			}
 			ctx.SetBodyString(fmt.Sprintf("r%d", i))
+			if i < len(reqs) && reqs[i].Timeout {
+				ctx.TimeoutErrorWithCode(fmt.Sprintf("t%d", i), 503)
+			}
 		},
 	}
 	w := vpNewWire(nil, nil, false)
@@ -146,7 +150,7 @@ func vpC10RunServer(cfg vpC10Cfg, reqs []vpC10Req) (steps []vpC10Step, fail stri
 			st.MustClose, st.Why = true, "DisableKeepalive"
 		case cfg.MaxReqs > 0 && i+1 >= cfg.MaxReqs:
 			st.MustClose, st.Why = true, "MaxRequestsPerConn reached"
-		case r.HandlerClose:
+		case r.HandlerClose && !r.Timeout: // a timeout response replaces everything the handler set on its response
 			st.MustClose, st.Why = true, "handler called SetConnectionClose"
 		}
 		steps = append(steps, st)
@@ -254,7 +258,8 @@ func TestVP_C10_Server(t *testing.T) {
 				break
 			}
 			r.HandlerClose = rapid.IntRange(0, 7).Draw(t, "hclose") == 0
-			if vpC10HasToken(r.ConnLines, "close") || r.HandlerClose || (r.Proto == "HTTP/1.0" && !vpC10HasToken(r.ConnLines, "keep-alive")) {
+			r.Timeout = rapid.IntRange(0, 4).Draw(t, "timeout") == 0
+			if vpC10HasToken(r.ConnLines, "close") || (r.HandlerClose && !r.Timeout) || (r.Proto == "HTTP/1.0" && !vpC10HasToken(r.ConnLines, "keep-alive")) {
 				causes++
 			}
 			reqs = append(reqs, r)
